@@ -95,6 +95,18 @@ func newC01Inst(name, strategy, basePath string, reqID, trace bool) (*c01Inst, e
 	cfg := baseConfig(strategy, be.URL()+basePath)
 	cfg.Logging.RequestID = config.RequestIDConfig{Enabled: reqID}
 	cfg.Logging.Trace = config.TraceConfig{Enabled: trace}
+	switch name {
+	case "features":
+		// every non-transforming feature switched on with limits the exchanges never reach: the
+		// request then takes the breaker / limiter / failure-counting code paths, and must still
+		// be relayed untouched
+		cfg.CircuitBreaker = config.CircuitBreakerConfig{Enabled: true, MaxRequests: 1, IntervalSeconds: 60, TimeoutSeconds: 60, FailureThreshold: 1000000, SuccessThreshold: 1}
+		cfg.RateLimit = config.RateLimitConfig{Enabled: true, MaxTokens: 1000000, RefillRate: 1}
+		cfg.HealthChecks.Passive = config.PassiveHealthCheckConfig{Enabled: true, UnhealthyThreshold: 1000000, UnhealthyTimeout: 1}
+	case "plugins":
+		// plugins that do not transform: logging, and size_limit with limits far above every shape
+		cfg.Plugins = config.PluginsConfig{Enabled: true, Chain: []config.PluginConfig{{Name: "logging"}, sizeLimitCfg(1<<30, 1<<30)}}
+	}
 	h, err := startHelios(cfg)
 	if err != nil {
 		return nil, err
@@ -378,7 +390,11 @@ func TestVerifC01(t *testing.T) {
 	for _, s := range c01Core(th) {
 		jobs = append(jobs, job{"round_robin", s})
 	}
+	for _, s := range c01Core(th) {
+		jobs = append(jobs, job{"features", s})
+	}
 	for _, s := range c01Twelve() {
+		jobs = append(jobs, job{"plugins", s})
 		for _, p := range c01Paths {
 			for _, q := range c01Queries {
 				x := s
@@ -434,6 +450,8 @@ func TestVerifC01(t *testing.T) {
 			in, err = newC01Inst(name, "round_robin", "", false, true)
 		case name == "ids:both":
 			in, err = newC01Inst(name, "round_robin", "", true, true)
+		case name == "features" || name == "plugins":
+			in, err = newC01Inst(name, "round_robin", "", false, false)
 		default:
 			in, err = newC01Inst(name, name, "", false, false)
 		}
